@@ -17,12 +17,15 @@
 // Modes: "sched" - the driver imposes the order of sends returning and replies arriving that the
 // model behaviour prescribes (SendFunc is ours: it parks until released; replies are injected from
 // separate goroutines; "late" = after the callback value was received);
+// "loop" - as "sched" (Enqueue / Deliver steps only), but the servent is reached through the
+// scheduler's own send function and MESSAGE event handler (see wireLoop);
 // "free" - nothing is ordered: SendFunc returns at once and every reply is injected from its own
 // goroutine after its scripted delay (races included); only the monitor judges these runs.
 package main
 
 import (
 	"bufio"
+	"context"
 	"encoding/json"
 	"errors"
 	"flag"
@@ -38,6 +41,9 @@ import (
 	"github.com/AliceO2Group/Control/common/utils/uid"
 	"github.com/AliceO2Group/Control/core/controlcommands"
 	mesos "github.com/mesos/mesos-go/api/v1/lib"
+	"github.com/mesos/mesos-go/api/v1/lib/scheduler"
+	"github.com/mesos/mesos-go/api/v1/lib/scheduler/calls"
+	"github.com/mesos/mesos-go/api/v1/lib/scheduler/events"
 	"github.com/rs/xid"
 	"github.com/sirupsen/logrus"
 
@@ -95,6 +101,8 @@ type Scenario struct {
 	EnqUs   map[string]int `json:"enq_us"`   // delay before Enqueue
 	DelayUs map[string]int `json:"delay_us"` // token -> delay after SendBegin
 	HoldUs  map[string]int `json:"hold_us"`  // "c/t" -> time SendFunc takes to return (slow send)
+	// loop mode
+	Kind map[string]string `json:"kind"` // command -> "hook" (MesosCommand_TriggerHook) | "trans"
 }
 
 const stepWait = 3 * time.Second
@@ -106,7 +114,8 @@ type run struct {
 	events  []map[string]interface{}
 	servent *controlcommands.Servent
 	queues  map[string]*controlcommands.CommandQueue
-	cmds    map[string]*controlcommands.MesosCommand_Transition
+	cmds    map[string]controlcommands.MesosCommand
+	evCh    chan *scheduler.Event // loop mode: the Mesos event stream (one consumer, as the controller loop)
 	idName  map[xid.ID]string
 	ids     map[string]xid.ID
 	targets map[string]controlcommands.MesosCommandTarget
@@ -159,7 +168,7 @@ func mkTarget(name string) controlcommands.MesosCommandTarget {
 }
 
 func newRun(sc *Scenario) *run {
-	r := &run{sc: sc, queues: map[string]*controlcommands.CommandQueue{}, cmds: map[string]*controlcommands.MesosCommand_Transition{},
+	r := &run{sc: sc, queues: map[string]*controlcommands.CommandQueue{}, cmds: map[string]controlcommands.MesosCommand{},
 		idName: map[xid.ID]string{}, ids: map[string]xid.ID{}, targets: map[string]controlcommands.MesosCommandTarget{},
 		tname: map[controlcommands.MesosCommandTarget]string{}, taskT: map[string]string{}, msgs: map[string]Msg{},
 		seen: map[string]chan struct{}{}, gate: map[string]chan struct{}{}, done: map[string]chan struct{}{}, once: map[string]*sync.Once{},
@@ -198,11 +207,20 @@ func newRun(sc *Scenario) *run {
 			r.once[k+"d"] = &sync.Once{}
 			r.once[k+"g"] = &sync.Once{}
 		}
-		cmd := controlcommands.NewMesosCommand_Transition(env, recv, "STANDBY", "CONFIGURE", "CONFIGURED", nil)
-		cmd.ResponseTimeout = r.timeout
-		r.cmds[c] = cmd
-		r.idName[cmd.Id] = c
-		r.ids[c] = cmd.Id
+		var id xid.ID
+		if sc.Kind[c] == "hook" {
+			cmd := controlcommands.NewMesosCommand_TriggerHook(env, recv)
+			cmd.ResponseTimeout = r.timeout
+			r.cmds[c] = cmd
+			id = cmd.Id
+		} else {
+			cmd := controlcommands.NewMesosCommand_Transition(env, recv, "STANDBY", "CONFIGURE", "CONFIGURED", nil)
+			cmd.ResponseTimeout = r.timeout
+			r.cmds[c] = cmd
+			id = cmd.Id
+		}
+		r.idName[id] = c
+		r.ids[c] = id
 		r.cbCh[c] = make(chan controlcommands.MesosCommandResponse, 64)
 		r.cbGot[c] = make(chan struct{})
 	}
@@ -215,6 +233,10 @@ func newRun(sc *Scenario) *run {
 		for _, m := range ms {
 			r.msgs[m.tokStr()] = m
 		}
+	}
+	if sc.Mode == "loop" {
+		r.wireLoop()
+		return r
 	}
 	r.servent = controlcommands.NewServent(r.sendFunc)
 	for _, q := range sc.Qof {
@@ -274,6 +296,96 @@ func (r *run) sendFunc(cmd controlcommands.MesosCommand, receiver controlcommand
 		return errors.New("verif-sendfail " + k)
 	}
 	return nil
+}
+
+// ---- loop mode: the scheduler's own path around the servent -------------------------------------
+//
+// The command queue, the servent, its SendFunc (schedulerState.sendCommand) and the handler of
+// incoming MESSAGE events (schedulerState.incomingMessageHandler, which feeds ProcessResponse) are
+// the real ones, wired by core/task.VerifCommandLoop around OUR Mesos caller. The caller is the
+// master + agent + executor: it answers a MESSAGE call as scripted and puts the executor's reply on
+// the event stream; ONE goroutine hands the events of the stream to the handler, one after the
+// other, as the mesos-go controller loop does.
+
+// loopWire is set (build tag c12loop) to core/task.VerifCommandLoop.
+var loopWire func(cli calls.Caller) (*controlcommands.CommandQueue, events.HandlerFunc)
+
+func (r *run) wireLoop() {
+	if loopWire == nil {
+		r.failed = "loop mode needs the build tag c12loop (core/task.VerifCommandLoop)"
+		return
+	}
+	r.evCh = make(chan *scheduler.Event, 4096)
+	q, handler := loopWire(calls.CallerFunc(r.masterCall))
+	for _, name := range r.sc.Qof {
+		r.queues[name] = q
+	}
+	go func() {
+		for e := range r.evCh {
+			_ = handler(context.Background(), e)
+		}
+	}()
+}
+
+// masterCall is the Mesos master as seen by the scheduler's caller.
+func (r *run) masterCall(ctx context.Context, call *scheduler.Call) (mesos.Response, error) {
+	msg := call.GetMessage()
+	if msg == nil {
+		return nil, nil
+	}
+	var head struct {
+		Name       string                               `json:"name"`
+		Id         xid.ID                               `json:"id"`
+		TargetList []controlcommands.MesosCommandTarget `json:"targetList"`
+	}
+	c, t := "?", "?"
+	if err := json.Unmarshal(msg.GetData(), &head); err == nil {
+		if n, ok := r.idName[head.Id]; ok {
+			c = n
+		}
+		if len(head.TargetList) == 1 {
+			if n, ok := r.tname[head.TargetList[0]]; ok {
+				t = n
+			}
+		}
+	}
+	k := key(c, t)
+	b := r.sc.Beh[k]
+	single := len(head.TargetList) == 1 && msg.GetAgentID().Value == "agent-"+t && msg.GetExecutorID().Value == "exec-"+t
+	r.emit("SendBegin", "c", c, "tgt", t, "b", b, "single", single)
+	fails := b == "sendfail" || b == "failreply"
+	for _, m := range r.sc.Msgs[k] { // the executor got the command and answers
+		r.emitEvent(head.Name, m)
+	}
+	if h := r.sc.HoldUs[k]; h > 0 { // the HTTP response of the call takes its time (and may be lost)
+		time.Sleep(time.Duration(h) * time.Microsecond)
+	}
+	r.emit("SendEnd", "c", c, "tgt", t, "b", b, "ok", !fails)
+	r.mu.Lock()
+	if !fails {
+		r.lastOk = time.Now()
+	}
+	r.mu.Unlock()
+	if fails {
+		return nil, errors.New("verif-sendfail " + k)
+	}
+	return nil, nil
+}
+
+// emitEvent puts the executor's reply on the event stream.
+func (r *run) emitEvent(cmdName string, m Msg) {
+	res, sender := r.reply(m)
+	var data []byte
+	if cmdName == "MesosCommand_TriggerHook" {
+		hr := &controlcommands.MesosCommandResponse_TriggerHook{MesosCommandResponseBase: res.MesosCommandResponseBase, TaskId: res.TaskId}
+		hr.CommandName = cmdName
+		data, _ = json.Marshal(hr)
+	} else {
+		data, _ = json.Marshal(res)
+	}
+	r.emit("EvEmit", "m", r.msgJSON(m))
+	r.evCh <- &scheduler.Event{Type: scheduler.Event_MESSAGE, Message: &scheduler.Event_Message{
+		AgentID: sender.AgentId, ExecutorID: sender.ExecutorId, Data: data}}
 }
 
 // reply builds the response a target would send.
@@ -379,6 +491,19 @@ func (r *run) describe(c string, t string, resp controlcommands.MesosCommandResp
 		}
 		// a reply's id is whatever the reply carries: judged by the monitor (e.m.id = c)
 		idok = true
+	case *controlcommands.MesosCommandResponse_TriggerHook:
+		if v == nil {
+			e["k"] = "nilentry"
+			return e, false
+		}
+		// a hook reply carries no payload but (command id, task id): its token is (command, task, 1)
+		idn, okid := r.idName[v.CommandId]
+		snd := r.taskT[v.TaskId]
+		if m, ok := r.msgs[idn+"."+snd+".1"]; ok && okid {
+			e["k"] = "reply"
+			e["m"] = map[string]interface{}{"id": idn, "snd": snd, "tok": m.Tok, "err": v.Err() != nil}
+		}
+		idok = true
 	case *controlcommands.MesosCommandResponseBase:
 		if v == nil {
 			e["k"] = "nilentry"
@@ -400,7 +525,7 @@ func (r *run) describe(c string, t string, resp controlcommands.MesosCommandResp
 				who = "?"
 			}
 			e["who"] = []interface{}{c, who}
-			if !strings.HasPrefix(s, "MesosCommand_Transition ") {
+			if !strings.HasPrefix(s, "MesosCommand_Transition ") && !strings.HasPrefix(s, "MesosCommand_TriggerHook ") {
 				e["k"] = "other"
 			}
 		default:
@@ -422,9 +547,9 @@ func (r *run) errEntry(c string, keyName string, text string) map[string]interfa
 		if len(parts) == 2 {
 			e["who"] = []interface{}{parts[0], parts[1]}
 		}
-	case strings.HasPrefix(text, "MesosCommand_Transition timed out for task "):
+	case strings.HasPrefix(text, "MesosCommand_Transition timed out for task "), strings.HasPrefix(text, "MesosCommand_TriggerHook timed out for task "):
 		e["k"] = "timeout"
-		who := r.taskT[strings.TrimPrefix(text, "MesosCommand_Transition timed out for task ")]
+		who := r.taskT[text[strings.Index(text, " timed out for task ")+len(" timed out for task "):]]
 		if who == "" {
 			who = "?"
 		}
